@@ -85,8 +85,9 @@ def runRecOp (op : String) (attrs : Json) (ins : List (Option DT)) (nOut : Nat) 
     let guard := (if h == 1 then ["rec.hidden_size_1"] else []) ++ (if inputSize == 1 then ["rec.input_size_1"] else []) ++
       (if acts.length < defaults.length then ["rec.short_activation_list"] else [])
     if !sameDt || dt != .f32 then { model := { status := "unmodelled" }, spec := { domain := "mayRefuse" }, tags := tags ++ ["non-f32"] }
-    else if present.any fun (t : DT) => t.fl.isSome then
-      -- float carrier (default activations): native floats, compared with a tolerance (testing)
+    else if (present.any fun (t : DT) => t.fl.isSome) || acts.any (fun a => a == "sigmoid" || a == "tanh") then
+      -- float carrier (float inputs, or transcendental activations on integer-valued inputs): native
+      -- floats, compared with a tolerance (testing)
       let fins : List (Option (Tensor Float)) := ins.map fun o => o.bind fun (t : DT) => match t.fl with
         | some f => some f
         | none => some ⟨t.t.shape, t.t.data.map Float.ofInt⟩
